@@ -200,18 +200,27 @@ def St.has (c : Cfg K V) (s : St K V) (k : K) : St K V × Bool :=
     | (s', true) => (s', !s'.deleted c k)
     | (s', false) => (s', s'.tree.has k)
 
-/-- `State.Set`; `false` = `ErrExceedGasLimit` -/
-def St.set (c : Cfg K V) (s : St K V) (k : K) (v : V) : St K V × Bool :=
+/-- result of `State.Set` -/
+inductive SetRes where
+  | ok
+  | errGas        -- `ErrExceedGasLimit`
+  | errReserved   -- `ErrReservedValue`: the TOMBSTONE marker cannot be stored as a value
+  deriving DecidableEq, Repr
+
+/-- `State.Set` -/
+def St.set (c : Cfg K V) (s : St K V) (k : K) (v : V) : St K V × SetRes :=
+  if v = c.tomb then (s, .errReserved)
+  else
   match s.sess with
-  | some o => ({ s with sess := some (upsert o k v) }, true)
+  | some o => ({ s with sess := some (upsert o k v) }, .ok)
   | none =>
     if s.metered then
       match s.gas.consumeStrict 200 with
-      | none => (s, false)
+      | none => (s, .errGas)
       | some g =>
         ({ s with cache := upsert s.cache k v,
-                  gas := g.consumeAlways ((c.vlen v : Int) * 20) }, true)
-    else ({ s with cache := upsert s.cache k v }, true)
+                  gas := g.consumeAlways ((c.vlen v : Int) * 20) }, .ok)
+    else ({ s with cache := upsert s.cache k v }, .ok)
 
 /-- `State.Delete` (always reports success) -/
 def St.del (c : Cfg K V) (s : St K V) (k : K) : St K V :=
@@ -285,6 +294,7 @@ inductive Op (K V : Type) where
 inductive Out (K V : Type) where
   | ok
   | errGas
+  | errReserved
   | panic
   | val (v : Option V)
   | bool (b : Bool)
@@ -296,7 +306,9 @@ inductive Out (K V : Type) where
 def step (c : Cfg K V) (s : St K V) : Op K V → St K V × Out K V
   | .newState none => (St.new s.tree, .ok)
   | .newState (some l) => (St.newGas s.tree l, .ok)
-  | .set k v => let (s', ok) := s.set c k v; (s', if ok then .ok else .errGas)
+  | .set k v =>
+    let (s', r) := s.set c k v
+    (s', match r with | .ok => .ok | .errGas => .errGas | .errReserved => .errReserved)
   | .del k => (s.del c k, .ok)
   | .get k => let (s', v) := s.get c k; (s', .val v)
   | .has k => let (s', b) := s.has c k; (s', .bool b)
